@@ -242,3 +242,12 @@ def expected_bmp(img, packed: bool, palette: bytes):
         stride = 3 * W + (4 - (3 * W) % 4) % 4
         rows = [bytes(3 * ox) + b"".join(bytes([p[3], p[2], p[1]]) for p in r) + bytes(stride - 3 * W) for r in reversed(img["pix"])]
     return hdr + b"".join(rows) + bytes(stride * oy)
+
+
+def repo_palette(depth, name):
+    """palette bytes `Decoder.writeColorPalette` writes for a system palette (read from the repo's own table)"""
+    from drxtract.bitd.decoder import PALETTES
+    if depth not in (1, 8):
+        return b""
+    tbl = PALETTES[depth]
+    return bytes(tbl[name] if name in tbl else tbl["default"])
